@@ -29,6 +29,12 @@ def run(res, args):
             force, meta, doc, ev = sg.doc(lang, max_depth=rng.choice([2, 3, 5]))
             docs.append((force, meta, doc))
     inner = [x for n, x in wbgen.corpus_wbxml() if 'devinf' in n or 'ddf' in n] or [wbgen.corpus_wbxml()[0][1]]
+    # (one small document per language family that names its language in its header: the embedded parse is not forced)
+    fam = {}
+    for n, x in wbgen.corpus_wbxml():
+        if len(x) < 600 and len(x) > 4 and x[1] != 1:
+            fam.setdefault(n.split('-')[0], x)
+    inner = inner + list(fam.values())
     for name, doc in wbgen.corpus_wbxml():
         docs.append((0, 0, doc))
     for _ in range(150 if quick else 5000):
